@@ -339,26 +339,26 @@ theorem writtenKeys_appended {s : Settings} (hs : WFSettings s) (w : List Str) :
   · rw [matchKey_newLine (hs.key_noeq _ hkv) (hs.key_nonl _ hkv)]
     simp [strip_snoc_space k' (hs.key_strip _ hkv)]
 
-theorem modifyLines_proper {s : Settings} (hk : ∀ kv ∈ s, '\n' ∉ kv.1) (hv : ∀ kv ∈ s, '\n' ∉ kv.2)
-    (ls : List Str) (h : ∀ l ∈ ls, Proper l) : ∀ l ∈ modifyLines s ls, Proper l := by
+theorem modifyLinesAsIs_proper {s : Settings} (hk : ∀ kv ∈ s, '\n' ∉ kv.1) (hv : ∀ kv ∈ s, '\n' ∉ kv.2)
+    (ls : List Str) (h : ∀ l ∈ ls, Proper l) : ∀ l ∈ modifyLinesAsIs s ls, Proper l := by
   intro l hl
-  simp only [modifyLines, List.mem_append, List.mem_map] at hl
+  simp only [modifyLinesAsIs, List.mem_append, List.mem_map] at hl
   rcases hl with ⟨l0, h0, rfl⟩ | hl
   · exact editOut_proper s hv l0 (h l0 h0)
   · obtain ⟨k, v, hm, _, rfl⟩ := appended_mem hl
     exact newLine_proper (hk _ hm) (hv _ hm)
 
 /-- on whole lines a second pass of the editor changes nothing -/
-theorem modifyLines_idem {s : Settings} (hs : WFSettings s) (ls : List Str) :
-    modifyLines s (modifyLines s ls) = modifyLines s ls := by
-  have hw : ∀ k ∈ keys s, k ∈ writtenKeys (modifyLines s ls) := by
+theorem modifyLinesAsIs_idem {s : Settings} (hs : WFSettings s) (ls : List Str) :
+    modifyLinesAsIs s (modifyLinesAsIs s ls) = modifyLinesAsIs s ls := by
+  have hw : ∀ k ∈ keys s, k ∈ writtenKeys (modifyLinesAsIs s ls) := by
     intro k hk
-    simp only [modifyLines, writtenKeys_append, writtenKeys_map_editOut, List.mem_append]
+    simp only [modifyLinesAsIs, writtenKeys_append, writtenKeys_map_editOut, List.mem_append]
     by_cases h : k ∈ writtenKeys ls
     · exact Or.inl h
     · exact Or.inr (writtenKeys_appended hs _ k hk h)
-  have h1 : (modifyLines s ls).map (editOut s) = modifyLines s ls := by
-    simp only [modifyLines, List.map_append, List.map_map]
+  have h1 : (modifyLinesAsIs s ls).map (editOut s) = modifyLinesAsIs s ls := by
+    simp only [modifyLinesAsIs, List.map_append, List.map_map]
     congr 1
     · apply List.map_congr_left
       intro l _
@@ -368,8 +368,8 @@ theorem modifyLines_idem {s : Settings} (hs : WFSettings s) (ls : List Str) :
       intro l hl
       obtain ⟨k, v, hm, _, rfl⟩ := appended_mem hl
       simpa using editOut_newLine hs hm
-  have e : modifyLines s (modifyLines s ls) =
-      (modifyLines s ls).map (editOut s) ++ appended s (writtenKeys (modifyLines s ls)) := rfl
+  have e : modifyLinesAsIs s (modifyLinesAsIs s ls) =
+      (modifyLinesAsIs s ls).map (editOut s) ++ appended s (writtenKeys (modifyLinesAsIs s ls)) := rfl
   rw [e, h1, appended_nil_of_subset hw]
   simp
 
@@ -385,14 +385,14 @@ theorem substLine_untouched (spl : List Str) (s : Settings) (line : Str)
     simp only [substLine, hk, if_false]
     exact ih line (fun k' hk' => h k' (by simp only [keys, List.map_cons, List.mem_cons]; exact Or.inr hk'))
 
-/-- `wfrVars` never raises iff every variable that is a token of the line is still in
+/-- `wfrVarsAsIs` never raises iff every variable that is a token of the line is still in
     `not_found`; it then returns the substituted line and removes exactly those variables. -/
-theorem wfrVars_spec (spl : List Str) : ∀ (s : Settings) (line : Str) (nf : List Str),
+theorem wfrVarsAsIs_spec (spl : List Str) : ∀ (s : Settings) (line : Str) (nf : List Str),
     (keys s).Nodup → nf.Nodup →
     (if ∀ k ∈ keys s, k ∈ spl → k ∈ nf
-     then ∃ nf', wfrVars spl s line nf = .ok (substLine spl s line, nf') ∧ nf'.Nodup ∧
+     then ∃ nf', wfrVarsAsIs spl s line nf = .ok (substLine spl s line, nf') ∧ nf'.Nodup ∧
         ∀ k, k ∈ nf' ↔ (k ∈ nf ∧ ¬ (k ∈ keys s ∧ k ∈ spl))
-     else wfrVars spl s line nf = .error .key) := by
+     else wfrVarsAsIs spl s line nf = .error .key) := by
   intro s
   induction s with
   | nil =>
@@ -421,7 +421,7 @@ theorem wfrVars_spec (spl : List Str) : ∀ (s : Settings) (line : Str) (nf : Li
           rw [if_pos hc] at hrec
           obtain ⟨nf', e, hn, hmem⟩ := hrec
           refine ⟨nf', ?_, hn, ?_⟩
-          · simp only [wfrVars, hsp, hin, if_true, substLine]
+          · simp only [wfrVarsAsIs, hsp, hin, if_true, substLine]
             exact e
           · intro k
             rw [hmem k]
@@ -433,13 +433,13 @@ theorem wfrVars_spec (spl : List Str) : ∀ (s : Settings) (line : Str) (nf : Li
               simp [ek]
         · rw [if_neg (fun h => hc (hcond.1 h))]
           rw [if_neg hc] at hrec
-          simp only [wfrVars, hsp, hin, if_true]
+          simp only [wfrVarsAsIs, hsp, hin, if_true]
           exact hrec
       · have : ¬ ∀ k ∈ keys ((var, val) :: t), k ∈ spl → k ∈ nf := by
           intro h
           exact hin (h var (by simp [keys]) hsp)
         rw [if_neg this]
-        simp [wfrVars, hsp, hin]
+        simp [wfrVarsAsIs, hsp, hin]
     · have hrec := ih line nf hnd' hnf
       have hcond : (∀ k ∈ keys ((var, val) :: t), k ∈ spl → k ∈ nf) ↔
           (∀ k ∈ keys t, k ∈ spl → k ∈ nf) := by
@@ -450,7 +450,7 @@ theorem wfrVars_spec (spl : List Str) : ∀ (s : Settings) (line : Str) (nf : Li
         rw [if_pos hc] at hrec
         obtain ⟨nf', e, hn, hmem⟩ := hrec
         refine ⟨nf', ?_, hn, ?_⟩
-        · simp only [wfrVars, hsp, if_false, substLine]
+        · simp only [wfrVarsAsIs, hsp, if_false, substLine]
           exact e
         · intro k
           rw [hmem k]
@@ -460,7 +460,7 @@ theorem wfrVars_spec (spl : List Str) : ∀ (s : Settings) (line : Str) (nf : Li
           · simp [ek]
       · rw [if_neg (fun h => hc (hcond.1 h))]
         rw [if_neg hc] at hrec
-        simp only [wfrVars, hsp, if_false]
+        simp only [wfrVarsAsIs, hsp, if_false]
         exact hrec
 
 /-- what `write_for_run` makes of one line when nothing raises -/
@@ -478,19 +478,19 @@ theorem occ_cons (k l : Str) (t : List Str) :
 def quota (nf : List Str) (k : Str) : Nat := if k ∈ nf then 1 else 0
 
 /-- invariant of the line loop of `write_for_run` -/
-theorem wfrLines_spec (s : Settings) (hnd : (keys s).Nodup) :
+theorem wfrLinesAsIs_spec (s : Settings) (hnd : (keys s).Nodup) :
     ∀ (lines : List Str) (nf : List Str) (acc : List Str), nf.Nodup → (∀ k ∈ nf, k ∈ keys s) →
-    ((wfrLines s lines nf acc).err = none ↔ ∀ k ∈ keys s, occ k lines = quota nf k) ∧
-    ((wfrLines s lines nf acc).err = some .key ↔ ∃ k ∈ keys s, occ k lines > quota nf k) ∧
-    ((wfrLines s lines nf acc).err ≠ some .key →
-        (wfrLines s lines nf acc).written = acc.reverse ++ lines.map (substOf s)) ∧
+    ((wfrLinesAsIs s lines nf acc).err = none ↔ ∀ k ∈ keys s, occ k lines = quota nf k) ∧
+    ((wfrLinesAsIs s lines nf acc).err = some .key ↔ ∃ k ∈ keys s, occ k lines > quota nf k) ∧
+    ((wfrLinesAsIs s lines nf acc).err ≠ some .key →
+        (wfrLinesAsIs s lines nf acc).written = acc.reverse ++ lines.map (substOf s)) ∧
     (∃ j, j ≤ lines.length ∧
-        (wfrLines s lines nf acc).written = acc.reverse ++ (lines.take j).map (substOf s)) := by
+        (wfrLinesAsIs s lines nf acc).written = acc.reverse ++ (lines.take j).map (substOf s)) := by
   intro lines
   induction lines with
   | nil =>
     intro nf acc _ hsub
-    simp only [wfrLines, occ, List.filter_nil, List.length_nil, quota]
+    simp only [wfrLinesAsIs, occ, List.filter_nil, List.length_nil, quota]
     refine ⟨?_, ?_, by simp, ⟨0, by simp⟩⟩
     · cases nf with
       | nil => simp
@@ -504,13 +504,13 @@ theorem wfrLines_spec (s : Settings) (hnd : (keys s).Nodup) :
       · intro ⟨k, _, hk⟩; omega
   | cons line t ih =>
     intro nf acc hnf hsub
-    have hspec := wfrVars_spec (splitWS line) s line nf hnd hnf
+    have hspec := wfrVarsAsIs_spec (splitWS line) s line nf hnd hnf
     by_cases hC : ∀ k ∈ keys s, k ∈ splitWS line → k ∈ nf
     · rw [if_pos hC] at hspec
       obtain ⟨nf', e, hn', hmem⟩ := hspec
       have hsub' : ∀ k ∈ nf', k ∈ keys s := fun k hk => hsub k ((hmem k).1 hk).1
-      have hstep : wfrLines s (line :: t) nf acc = wfrLines s t nf' (substOf s line :: acc) := by
-        simp only [wfrLines, e, substOf]
+      have hstep : wfrLinesAsIs s (line :: t) nf acc = wfrLinesAsIs s t nf' (substOf s line :: acc) := by
+        simp only [wfrLinesAsIs, e, substOf]
       obtain ⟨i1, i2, i3, j, hj, i4⟩ := ih nf' (substOf s line :: acc) hn' hsub'
       have hq : ∀ k ∈ keys s, (occ k (line :: t) = quota nf k ↔ occ k t = quota nf' k) ∧
           (occ k (line :: t) > quota nf k ↔ occ k t > quota nf' k) := by
@@ -542,8 +542,8 @@ theorem wfrLines_spec (s : Settings) (hnd : (keys s).Nodup) :
       · rw [i4]
         simp
     · rw [if_neg hC] at hspec
-      have hstep : wfrLines s (line :: t) nf acc = { written := acc.reverse, err := some .key } := by
-        simp only [wfrLines, hspec]
+      have hstep : wfrLinesAsIs s (line :: t) nf acc = { written := acc.reverse, err := some .key } := by
+        simp only [wfrLinesAsIs, hspec]
       have hex : ∃ k ∈ keys s, k ∈ splitWS line ∧ k ∉ nf := by
         exact Classical.byContradiction fun h => hC (fun k hk hs =>
           Classical.byContradiction fun hn => h ⟨k, hk, hs, hn⟩)
